@@ -343,7 +343,7 @@ fn replay() {
 
 
 def _replay_shard_stats(cex, v, vm):
-    return REPLAY_SHARD_STATS + REPLAY_LIFECYCLE.replace("fn replay()", "fn replay_lifecycle()")
+    return "mod stats {\n" + REPLAY_SHARD_STATS + "\n}\nmod lifecycle {\n" + REPLAY_LIFECYCLE + "\n}\n"
 
 
 # Native lifecycle sweep: the TrackerAPI queries run on an ABSTRACT tracker (two abstract stores, symbolic statuses), so
